@@ -10,7 +10,7 @@ import ast
 
 from ..model import AnalysisError, src, callee_name, dotted, walk_local, calls_in, FUNC, names_in
 from ..flow import Sem
-from ..common import loop_closures, closure_escapes, CompletionSem, resolve_single_assign, ancestors, in_loop, is_awaited
+from ..common import loop_closures, closure_escapes, CompletionSem, resolve_single_assign, ancestors, in_loop, is_awaited, handle_type_accepted
 from ..selftest import Seed
 
 META = {
@@ -252,6 +252,12 @@ def _check_shutdown(ctx, repo):
     ctx.floor("C20-R4", "system function invoking the shutdown coroutine", len(sysfn), 1)
     for f in sysfn:
         ctx.instance("C20-R4", f.fq)
+        # the handle class that .web returns is accepted as given by .webc
+        hcls = sh.cls
+        found, accepted, bad = handle_type_accepted(f, hcls)
+        ctx.ob("C20-R4", f.fq, f"a {hcls} value (what .web returns) reaches the shutdown without having to be some other kind of value", found and accepted, node=f.node,
+               construct="webc accepts the handle web returns",
+               msg=f".webc only looks for the handle under `{bad}`: the {hcls} object that .web returns is not of that kind, so .webc(h) returns 0 and the port keeps answering")
         waits = []
         for c in calls_in(f.node):
             if isinstance(c.func, ast.Attribute) and c.func.attr == "result" and isinstance(c.func.value, ast.Call) and \
@@ -366,6 +372,8 @@ SEEDS = [
     Seed("extra-param", "fault", WEB, "                return web.Response(text=str(fn(parameters)))", "                parameters['_route'] = route\n                return web.Response(text=str(fn(parameters)))", rule="C20-R3", where="_post"),
     Seed("cleanup-not-awaited", "fault", WEB, "        await self.runner.cleanup()", "        asyncio.ensure_future(self.runner.cleanup())", rule="C20-R4"),
     Seed("webc-no-wait", "fault", WEB, "asyncio.run_coroutine_threadsafe(x.shutdown(), klong['.system']['ioloop']).result()", "asyncio.run_coroutine_threadsafe(x.shutdown(), klong['.system']['ioloop'])", rule="C20-R4"),
+    Seed("webc-only-unwraps-kgcall", "fault", WEB, "        x = x.a.fn\n    if isinstance(x, WebServerHandle) and x.runner is not None:\n        print(\"shutting down web server\")\n        asyncio.run_coroutine_threadsafe(x.shutdown(), klong['.system']['ioloop']).result()\n        return 1\n    return 0",
+         "        x = x.a.fn\n        if isinstance(x, WebServerHandle) and x.runner is not None:\n            print(\"shutting down web server\")\n            asyncio.run_coroutine_threadsafe(x.shutdown(), klong['.system']['ioloop']).result()\n            return 1\n    return 0", rule="C20-R4"),
     Seed("ws-dispatch-spawned", "fault", WS, "            await run_command_on_klongloop(self.klongloop, self.klong, \".ws.m\", msg, self)",
          "            asyncio.create_task(run_command_on_klongloop(self.klongloop, self.klong, \".ws.m\", msg, self))", rule="C20-R5"),
     Seed("ws-dispatch-twice-on-error", "fault", WS, "                except Exception as e:\n                    logging.warning(f\"error while running on_message handler: {e}\")",
